@@ -137,6 +137,7 @@ def check(case, acc):
     fams = []
     if n:
         fams = [[0], [n - 1], list(range(n))[::-1], [0, 0, n - 1, 0], list(range(0, n, 3)), [i for i in (p - 1, p, p + 1, 2 * p) if i < n],
+                [i for i in (2 * p + 1, 0, p + 1) if i < n], [i for i in (p, 2 * p, 0, p + 1, 2 * p + 1, 1) if i < n],
                 list(range(1, n)), list(range(p // 2 + 1, n)), list(range(max(0, p - 1), n)), list(range(1, min(n, p + 1)))]
     for lst in fams:
         if not lst:
